@@ -843,6 +843,10 @@ class Interp:
                 # symbolic guard: unrolled up to the bound the contract states, with an unwinding assertion
                 # (complete when the assertion is discharged; otherwise the obligation is refuted/undecided)
                 bound = self.spec.while_bound.get(fr.fi.qualname)
+                if bound is None and n == 0:
+                    d = self._default_while_contract(s, fr)
+                    if d is not None:
+                        return self.cut_while(s, fr, fr.loop_ordinals[id(s)], d)
                 if bound is None:
                     raise Unsupported('while with symbolic guard at %d (no unwinding bound in the contract)' % s.lineno)
                 if n >= bound:
@@ -862,6 +866,37 @@ class Interp:
             except _Continue:
                 pass
         self.exec_block(s.orelse, fr)
+
+    def _default_while_contract(self, s, fr):
+        """A while loop without a contract whose body only re-assigns plain locals from side-effect-free expressions (a search for the first free
+        name, a counter): cut with the empty invariant - after the loop the locals it assigns hold arbitrary values of their sort and the guard is
+        false.  Sound for partial correctness (termination is not proved anywhere); anything else in the body: no default."""
+        if s.orelse or any(isinstance(n, (ast.Break, ast.Return, ast.Raise, ast.Yield, ast.YieldFrom, ast.Call, ast.Await)) for st in s.body for n in ast.walk(st)
+                           if not (isinstance(n, ast.Call) and isinstance(n.func, ast.Name) and n.func.id in ('str', 'len', 'int'))):
+            return None
+        havoc = {}
+        for st in s.body:
+            if isinstance(st, ast.Assign) and len(st.targets) == 1 and isinstance(st.targets[0], ast.Name):
+                nm = st.targets[0].id
+            elif isinstance(st, ast.AugAssign) and isinstance(st.target, ast.Name):
+                nm = st.target.id
+            else:
+                return None
+            cur = fr.env.get(nm) if nm in fr.env else None
+            if isinstance(cur, bool) or cur is None:
+                return None
+            if isinstance(cur, int):
+                srt = IntS
+            elif isinstance(cur, str):
+                srt = StrS
+            elif is_sym(cur) and cur.sort() in (IntS, StrS, RealS, BoolS):
+                srt = cur.sort()
+            else:
+                return None
+            havoc[nm] = (lambda nm, srt: lambda c: c.fresh(nm, srt))(nm, srt)
+        if not havoc:
+            return None
+        return LoopSpec(lambda I_, e, k, it: {}, havoc)
 
     # ------------------------------------------------------------------ loops
     def chars_of(self, text):
@@ -1927,6 +1962,17 @@ class Interp:
             if kind == 'list' and not g.ifs and isinstance(g.target, ast.Name) and isinstance(e.elt, ast.Name) \
                     and e.elt.id == g.target.id:
                 return it.copy()
+            # (s.name == x for s in sections), x not about s - consumed by any(): the same question as `x in [s.name for s in sections]`
+            if kind == 'list' and not g.ifs and isinstance(g.target, ast.Name) and it.keys and isinstance(e.elt, ast.Compare) \
+                    and len(e.elt.ops) == 1 and isinstance(e.elt.ops[0], ast.Eq):
+                def _proj(n_):
+                    return isinstance(n_, ast.Attribute) and isinstance(n_.value, ast.Name) and n_.value.id == g.target.id and n_.attr in it.keys
+
+                def _free(n_):
+                    return not any(isinstance(x_, ast.Name) and x_.id == g.target.id for x_ in ast.walk(n_))
+                for a_, b_ in ((e.elt.left, e.elt.comparators[0]), (e.elt.comparators[0], e.elt.left)):
+                    if _proj(a_) and _free(b_):
+                        return EqToEach(SymSeq([it.cols[it.keys.index(a_.attr)]]), self.eval(b_, fr))
             # field projection over a sequence of records kept as columns:  [s.name for s in sections]
             if kind == 'list' and not g.ifs and isinstance(g.target, ast.Name) and isinstance(e.elt, ast.Attribute) \
                     and isinstance(e.elt.value, ast.Name) and e.elt.value.id == g.target.id and it.keys and e.elt.attr in it.keys:
@@ -2535,6 +2581,53 @@ def _b_list(I, args, kwargs, node):
     raise Unsupported('list(%r)' % (v,))
 
 
+class SymIter:
+    """iter(x): an iterator over a tracked collection, at its first element"""
+
+    def __init__(self, src):
+        self.src, self.pos = src, 0
+
+
+def _b_iter(I, args, kwargs, node):
+    if isinstance(args[0], Untracked) or I.is_pyany(args[0]):
+        return Untracked()
+    return SymIter(args[0])
+
+
+def _b_next(I, args, kwargs, node):
+    it = args[0]
+    if isinstance(it, Untracked):
+        return Untracked()
+    if not isinstance(it, SymIter):
+        raise Unsupported('next(%r)' % (it,))
+
+    def exhausted():
+        if len(args) > 1:
+            return args[1]
+        I.raise_py('StopIteration', node)
+    src = it.src
+    if isinstance(src, (list, tuple, dict)):
+        items = list(src)
+        if it.pos >= len(items):
+            return exhausted()
+        it.pos += 1
+        return items[it.pos - 1]
+    if isinstance(src, SymMap) and it.pos == 0:
+        # the first key of a dict: some key of it (which one is the insertion order, which the contract does not track)
+        if src.ksort is None or I.ctx.branch(src.dom == z3.EmptySet(src.ksort), 'next.of_empty@%d' % getattr(node, 'lineno', 0)):
+            return exhausted()
+        k = I.fresh('first_key', src.ksort)
+        I.ctx.assume(z3.IsMember(k, src.dom))
+        it.pos = 1
+        return k
+    if isinstance(src, SymSeq) and it.pos == 0:
+        if I.ctx.branch(src.length() == 0, 'next.of_empty@%d' % getattr(node, 'lineno', 0)):
+            return exhausted()
+        it.pos = 1
+        return src.elem(z3.IntVal(0))
+    raise Unsupported('next() on an iterator over %r at position %d' % (src, it.pos))
+
+
 def _b_dict(I, args, kwargs, node):
     if not args:
         return dict(kwargs)
@@ -2769,7 +2862,16 @@ def _b_type(I, args, kwargs, node):
 
 EXTERNALS = {'collections.defaultdict': 'defaultdict'}
 
+class EqToEach:
+    """the booleans (c == value for c in column), kept as the question they answer under any()"""
+
+    def __init__(self, column, value):
+        self.column, self.value = column, value
+
+
 def _b_any(I, args, kwargs, node, is_all=False):
+    if isinstance(args[0], EqToEach) and not is_all:
+        return I.contains(args[0].column, args[0].value, node)
     items = I.concrete_items(args[0])
     if items is None:
         raise Unsupported('any/all over a symbolic collection')
@@ -2795,5 +2897,6 @@ BUILTINS = {
     'print': _b_print, 'isinstance': _b_isinstance, 'str': _b_str, 'tuple': _b_tuple,
     'enumerate': _b_enumerate, 'zip': _b_zip, 'range': _b_range, 'sum': _b_sum, 'sorted': _b_sorted,
     'float': _b_float, 'int': _b_int, 'max': _b_max, 'min': _b_min, 'round': _b_round, 'getattr': _b_getattr, 'hasattr': _b_hasattr,
+    'iter': _b_iter, 'next': _b_next,
     'defaultdict': _b_defaultdict, 'type': _b_type, 'frozenset': _b_set,          # frozenset(x): an immutable set - same abstract value; as a class name in isinstance it is its own name
 }
